@@ -174,7 +174,7 @@ fn c01_late_strategy(_ctx: &Ctx) -> BoxedStrategy<SeqCase> {
       }
       root.renumber();
       SeqCase {
-        case: Case { root, hots: vec![kind], hot_illformed: true, conn: None, conn_take: None, recorders: vec![reactions], actions },
+        case: Case { root, hots: vec![kind], hot_illformed: true, conn: None, conn_take: None, conn_take_only: None, recorders: vec![reactions], actions },
         hash_seed,
       }
     })
